@@ -37,6 +37,7 @@ struct vsim_engine {
   double L[3] = {0, 0, 0};
   double dt = 1.0, temperature = 0.0;
   bool provide_total_forces = true;
+  bool tf_only_on_request = false;             // `tfonrequest 1`: export total forces only while Colvars requests them (NAMD/LAMMPS-like)
   bool same_step = true;                       // total_forces_same_step()
   bool include_cv_forces = true;               // lagged mode: total force includes Colvars' own force
   std::string prefix = "";
@@ -361,7 +362,7 @@ public:
     for (size_t i = 0; i < atoms_ids.size(); i++) {
       int aid = atoms_ids[i];
       atoms_positions[i] = eng->pos[aid];
-      if (eng->provide_total_forces) {
+      if (eng->provide_total_forces && (!eng->tf_only_on_request || total_force_requested)) {
         if (eng->same_step) {
           atoms_total_forces[i] = eng->eforce[aid];
         } else {
@@ -541,6 +542,7 @@ struct vsim_session {
     else if (cmd == "temperature") { eng.temperature = num(a[0]); if (proxy) { proxy->set_target_temperature(eng.temperature); proxy->colvars->update_engine_parameters(); } }
     else if (cmd == "samestep") { eng.same_step = atoi(a[0].c_str()) != 0; }
     else if (cmd == "totalforces") { eng.provide_total_forces = atoi(a[0].c_str()) != 0; }
+    else if (cmd == "tfonrequest") { eng.tf_only_on_request = atoi(a[0].c_str()) != 0; }
     else if (cmd == "includecv") { eng.include_cv_forces = atoi(a[0].c_str()) != 0; }
     else if (cmd == "prefix") { eng.prefix = a.size() ? a[0] : ""; }
     else if (cmd == "restartfreq") { eng.restart_freq = atoi(a[0].c_str()); }
